@@ -42,16 +42,15 @@ class G:
             stem = self.r.choice(self.STEMS)
             if self.r.random() < 0.3:
                 stem = stem.upper()
-            nm = (a + stem) if a.endswith("_") or not a else (stem + a)
-            return "%s%d" % (nm, self.n) if self.r.random() < 0.4 else self._uniq(nm)
+            self.used = getattr(self, "used", set())
+            # the number (when one is needed for uniqueness) goes inside the name so that prefix and suffix stay at the ends
+            for num in ("", str(self.n)):
+                nm = (a + stem + num) if a.endswith("_") or not a else (stem + num + a)
+                if nm.lower() not in self.used:
+                    break
+            self.used.add(nm.lower())
+            return nm
         return "%s%d" % (p, self.n)
-
-    def _uniq(self, nm):
-        self.used = getattr(self, "used", set())
-        if nm.lower() in self.used:
-            return "%s%d" % (nm, self.n)
-        self.used.add(nm.lower())
-        return nm
 
     def chance(self, p):
         return self.r.random() < p
